@@ -53,14 +53,15 @@ class ParamTok(VarV):
     def sym_truth(self, it): return True
 
 class PredTok(SymVal):
-    def __init__(self, it, arity=None):
+    def __init__(self, it, arity=None, coords=None):
+        self.coords = coords
         self.arity = arity if arity is not None else it.fresh_int('arity')
         if arity is None: it.assume(self.arity >= 1)
     def sym_getattr(self, it, name):
         if name == 'arity': return self.arity
         raise Outside(f'Predicate.{name}')
     def sym_call(self, it, args, kw):
-        it.iterate(args[0]) if args and not isinstance(args[0], AbsSeq) else None
+        it.iterate(args[0]) if args and not isinstance(args[0], (AbsSeq, ParamTok, RestTok)) else None
         return SentTok(it)
     def sym_truth(self, it): return True
 
@@ -72,14 +73,21 @@ class OperTok(SymVal):
         if name == 'name': return '<operator>'
         raise Outside(f'Operator.{name}')
     def sym_call(self, it, args, kw):
-        for a in args: it.iterate(a)        # the operand generator is consumed (the readers run here)
+        for a in args:
+            if not isinstance(a, (SentTok, AbsSeq, RestTok)): it.iterate(a)        # an operand generator is consumed (the readers run here)
         return SentTok(it)
+
+class RestTok(SymVal):
+    "all the elements of an abstract sequence, where it is star-unpacked into a call or a tuple display"
+    def __init__(self, seq): self.seq = seq
+    def sym_truth(self, it): return True
 
 class AbsSeq(SymVal):
     "a sequence of parameters of unknown length"
     def __init__(self, it): self.n = it.fresh_int('nparams'); it.assume(self.n >= 0)
     def sym_len(self, it): return self.n
     def sym_truth(self, it): return self.n > 0
+    def sym_iter(self, it): return [RestTok(self)]
 
 class AbsStr(SymVal):
     "a string assembled from table values: its content is unknown (int() may accept or reject it)"
@@ -128,14 +136,27 @@ class Opts(SymVal):
         raise Outside(f'opts[{k!r}]')
 
 class Store(SymVal):
-    "parser.predicates: get(coords) finds a predicate or raises KeyError; add() of a predicate that was not found succeeds"
+    """parser.predicates, one object per parser: get(coords) finds a predicate or raises KeyError and then the symbol is known to be
+    missing from THIS store; add(p) succeeds for a predicate built from coordinates this store reported missing (nothing was added
+    since: one add per reader call), and may raise the store's ValueError (value conflict) for any other predicate"""
+    def __init__(self): self.missing = []
+    def is_missing(self, coords):
+        return any(coords is m or (isinstance(coords, CoordsTok) and isinstance(m, CoordsTok) and coords.index is m.index and coords.sub is m.sub) for m in self.missing)
+    def sym_truth(self, it): return True
     def sym_getattr(self, it, name):
         if name == 'get':
             def get(it, coords):
                 if it.fork(it.fresh_bool('pred_known')): return PredTok(it)
+                self.missing.append(coords)
                 raise PyExc(KeyError, ())
             return Contract(get, 'Predicates.get')
-        if name == 'add': return Contract(lambda it, p: None, 'Predicates.add (of a symbol that get() did not find)')
+        if name == 'add':
+            def add(it, p_):
+                src = getattr(p_, 'coords', None)
+                if src is not None and self.is_missing(src): return None
+                if it.fork(it.fresh_bool('add_conflicts')): raise PyExc(ValueError, ('value conflict',))
+                return None
+            return Contract(add, 'Predicates.add')
         raise Outside(f'Predicates.{name}')
 
 # ------------------------------------------------------------------ the parser model
@@ -173,6 +194,7 @@ class ParserM(SymVal):
     def __init__(self, parsercls, under_test):
         self.cls, self.under_test = parsercls, under_test
         self.inlined = {}
+        self.store = Store()
     def _callee(self, name):
         PE, UPE = parse_error_classes()
         pm = self
@@ -216,14 +238,16 @@ class ParserM(SymVal):
                 need(it, c)
                 if it.fork(it.fresh_bool('undefined_predicate')):
                     effect(it, c, True)          # the symbol was consumed before the lookup failed
-                    raise PyExc(UPE, (CoordsTok(it.fresh_int('index'), it.fresh_int('sub')), '<msg>'))
+                    ct = CoordsTok(it.fresh_int('index'), it.fresh_int('sub'))
+                    pm.store.missing.append(ct)  # ... in the parser's own store (postcondition checked on _read_predicate itself)
+                    raise PyExc(UPE, (ct, '<msg>'))
                 maybe_fail(it); effect(it, c, True); return PredTok(it)
             return Contract(f, '_read_predicate (contract)')
         raise Outside(f'parser.{name}')
     def sym_getattr(self, it, name):
         if name == '_methodmap': return MethodMap(self.cls._methodmap)
         if name == 'opts': return Opts()
-        if name == 'predicates': return Store()
+        if name == 'predicates': return self.store
         if name in READERS or name in STANDARD_READERS:
             if name == self.under_test:
                 for c in self.cls.__mro__:
@@ -239,9 +263,13 @@ class ParserM(SymVal):
     def sym_truth(self, it): return True
 
 class CtxR(CtxM):
-    "ParseContext with callable table values"
+    "ParseContext with callable table values; context.predicates is the store of the parser that opened it (obligations C13.store.*)"
+    store = None
     def __init__(self, pfx='c'):
         super().__init__(pfx); self.table = TableV2()
+    def sym_getattr(self, it, name):
+        if name == 'predicates' and self.store is not None: return self.store
+        return super().sym_getattr(it, name)
 
 def readers_world(parsercls):
     from pytableaux.lang import parsing as P, lex
@@ -259,7 +287,7 @@ def readers_world(parsercls):
     def predicate(it, *a):
         # Predicate(index, subscript, arity) raises ValueError for an unusable arity; Predicate(<system name>) finds the system predicate
         if len(a) >= 3 and it.fork(it.fresh_bool('predicate_ctor_rejects')): raise PyExc(ValueError, ('arity',))
-        return PredTok(it, a[2] if len(a) >= 3 and isinstance(a[2], z3.ArithRef) else None)
+        return PredTok(it, a[2] if len(a) >= 3 and isinstance(a[2], z3.ArithRef) else None, coords=CoordsTok(a[0], a[1]) if len(a) >= 3 else None)
     w.contract(Predicate, predicate, name='Predicate(...) (constructor: ValueError for an unusable spec)')
     w.contract(Operator, lambda it, v: OperTok(it), name='Operator(value) (enum lookup of a table value of type Operator)')
     orig = w.call_builtin_method
@@ -269,6 +297,9 @@ def readers_world(parsercls):
     w.call_builtin_method = cbm
     def exc_attr(it, what, args):
         if what == ('getattr', 'coords') and isinstance(args[0], ExcValue) and args[0].args: return args[0].args[0]
+        if what == ('len',) and isinstance(args[0], tuple) and any(isinstance(x, RestTok) for x in args[0]):
+            # (first, *rest): the display's length is the explicit items plus the abstract sequence's length
+            return sum(1 for x in args[0] if not isinstance(x, RestTok)) + sum(x.seq.n for x in args[0] if isinstance(x, RestTok))
         return NotImplemented
     w.attr_hooks.append(exc_attr)
     orig_contains = w.native_contains
@@ -314,6 +345,105 @@ class OperTok2(SymVal):
     def sym_is(self, it, o): return self is o
     def sym_truth(self, it): return True
 
+
+# ------------------------------------------------------------------ which store the readers work on
+
+class _Rec(SymVal):
+    "an object whose attribute writes are recorded"
+    def __init__(s, **attrs): s.attrs = dict(attrs); s.written = {}
+    def sym_setattr(s, it, name, v): s.written[name] = v; s.attrs[name] = v
+    def sym_getattr(s, it, name):
+        if name in s.attrs: return s.attrs[name]
+        raise PyExc(AttributeError, (name,))
+    def sym_truth(s, it): return True
+    def sym_is(s, it, o): return s is o
+    def sym_isinstance(s, it, cls): return False
+
+class _T(SymVal):
+    def __init__(s, name): s.name = name
+    def __repr__(s): return s.name
+    def sym_truth(s, it): return True
+    def sym_is(s, it, o): return s is o
+    def sym_isinstance(s, it, cls): return False
+
+def store_obligations(ctx):
+    """the readers' contracts speak of ONE predicate store: the parser's.  ParseContext.__init__ keeps the store it is given (the same
+    object, not a snapshot), and DefaultParser.__call__ opens the context on the parser's own table and store and reads from it."""
+    from pytableaux.lang import parsing as P
+    from pytableaux.lang import Predicates
+    from pytableaux.tools import qsetf
+    fn = P.ParseContext.__dict__['__init__']; fi = source.of_function(fn); where = ctx.under_contract(fi)
+    name = 'C13.store.ParseContext.__init__.keeps-the-given-store'
+    try:
+        w = PM.parsing_world()
+        fresh = lambda what: (lambda it, *a, **k: _T(f'<new {what}>'))
+        for ctor, what in ((Predicates, 'Predicates'), (Predicates.Frozen, 'Predicates.Frozen'), (qsetf, 'qsetf')):
+            w.contract(ctor, fresh(what), name=f'{what}(...) (constructor: a new collection)')
+        for b in (tuple, list, set, frozenset, dict): w.builtin_models[b] = fresh(b.__name__)
+        inp, tab, st = _T('input'), _T('table'), _T('store')
+        def run(path):
+            it = Interp(path, w); me = _Rec()
+            it.call_source(fi, fn, P.ParseContext, [me, inp, tab, st], {})
+            return me
+        prs = explore(run)
+        bad = []
+        for pr in prs:
+            if pr.kind != 'return': bad.append(f'path ends with {pr.kind}'); continue
+            me = pr.value
+            for attr, want in (('input', inp), ('table', tab), ('predicates', st)):
+                if me.attrs.get(attr) is not want: bad.append(f'self.{attr} is {me.attrs.get(attr)!r}, not the {want!r} it was given')
+        ctx.add(Obligation(name, not bad and len(prs) >= 1, kind='enum', where=where, meta=dict(paths=len(prs), cex=dict(bad=bad[:4]) if bad else None,
+                           clause='after ParseContext(input, table, predicates): self.input / self.table / self.predicates are the very objects given (the store is shared with the parser, so a predicate declared while parsing is seen by the next lookup)')))
+    except Outside as e:
+        ctx.add_result(Result(name, 'unknown', detail=f'outside subset: {e}', where=where))
+    fn2 = P.DefaultParser.__dict__['__call__']; fi2 = source.of_function(fn2); where2 = ctx.under_contract(fi2)
+    name2 = 'C13.store.DefaultParser.__call__.context-on-own-store'
+    try:
+        w = PM.parsing_world()
+        made = []
+        class CM(SymVal):
+            def __init__(s, args): s.args = args; s.entered = _T('context')
+            def sym_getattr(s, it, n):
+                if n == '__enter__': return Contract(lambda it: s.entered, 'ParseContext.__enter__ (returns the opened context)')
+                if n == '__exit__': return Contract(lambda it, *a: None, 'ParseContext.__exit__')
+                raise Outside(f'ParseContext.{n}')
+        def mk(it, *a):
+            cm = CM(a); made.append(cm); return cm
+        w.contract(P.ParseContext, mk, name='ParseContext(input, table, predicates)')
+        inp, tab, st, res = _T('input'), _T('table'), _T('store'), _T('sentence')
+        bad = []
+        def run(path):
+            del made[:]
+            it = Interp(path, w); reads = []
+            me = _Rec(table=tab, predicates=st, _read=Contract(lambda it, c: (reads.append(c), res)[1], 'self._read'))
+            r = it.call_source(fi2, fn2, P.DefaultParser, [me, inp], {})
+            return r, list(made), reads, me
+        prs = explore(run)
+        for pr in prs:
+            if pr.kind != 'return': bad.append(f'path ends with {pr.kind}'); continue
+            r, mades, reads, me = pr.value
+            if me.written: bad.append(f'writes parser attributes {sorted(me.written)}')
+            if len(mades) != 1 or len(mades[0].args) != 3 or mades[0].args[0] is not inp or mades[0].args[1] is not tab or mades[0].args[2] is not st:
+                bad.append(f'context opened on {[tuple(map(repr, m.args)) for m in mades]}, not on (input, self.table, self.predicates)')
+            elif len(reads) != 1 or reads[0] is not mades[0].entered or r is not res: bad.append('does not return self._read(<the opened context>)')
+        ctx.add(Obligation(name2, not bad and len(prs) >= 1, kind='enum', where=where2, meta=dict(paths=len(prs), cex=dict(bad=bad[:4]) if bad else None,
+                           clause='parser(input) for a string opens exactly one ParseContext(input, self.table, self.predicates) and returns self._read(context) of the opened context')))
+    except Outside as e:
+        ctx.add_result(Result(name2, 'unknown', detail=f'outside subset: {e}', where=where2))
+
+def replay_store(r):
+    "a predicate first used (and so declared) earlier in the same input must be seen by the later uses"
+    from pytableaux.lang import Parser, Predicates
+    from pytableaux.errors import ParseError
+    out = []
+    for notn, texts in (('polish', ('KFmFmn', 'KFmnFm', 'KGmGm')), ('standard', ('Fm & Fmn', 'Fmn & Fm'))):
+        for text in texts:
+            p = Parser(notn, Predicates())
+            try: p(text)
+            except ParseError: pass
+            except Exception as e: out.append(f'{notn} {text!r}: {type(e).__name__}: {e}')
+    return dict(reproduced=bool(out), detail='; '.join(out[:4]) or 'inputs that re-use an auto-declared predicate end with a sentence or a ParseError')
+
 # ------------------------------------------------------------------ obligations
 
 def reader_obligations(ctx):
@@ -334,6 +464,7 @@ def reader_obligations(ctx):
                 path.assume(c.pos <= c.input.n)
                 for g in precondition(name, c): path.assume(g)
                 pm = ParserM(pcls, name)
+                c.store = pm.store
                 old = dict(pos=c.pos, bound=c.bound.S)
                 f = pm.sym_getattr(it, name)
                 holder.append((path, c, old, pm))
@@ -361,7 +492,9 @@ def reader_obligations(ctx):
             if pr.kind == 'cut': continue
             if pr.kind == 'raise':
                 ok = issubclass(pr.value.cls, PE)
-                if name == '_read_predicate': ok = ok or issubclass(pr.value.cls, UPE)
+                if name == '_read_predicate' and issubclass(pr.value.cls, UPE):
+                    ok = bool(pr.value.eargs) and pm.store.is_missing(pr.value.eargs[0])
+                    if not ok: escapes.append('UndefinedPredicateError for a symbol the parser\'s own store was not asked about')
                 cl.append(z3.Implies(pr.pc, z3.BoolVal(ok)))
                 if not ok: escapes.append(pr.value.cls.__name__)
             else:
